@@ -1,7 +1,123 @@
 import XpmVerif.Model.Sched
 import XpmVerif.Generated.SchedFlags
+import XpmVerif.Proofs.SchedDeps
+/-! C04 (scheduling part): "No job is launched before everything it depends on has succeeded."
+
+    All theorems are about every state reachable in the scheduler model `Model/Sched.lean` by ANY list of
+    events (`Reachable fl totals s`: any workload, any schedule, any token table, no bound), for every flag
+    record `fl` with `fl.readyGuarded = true` (the other two repairs are not needed for C04).  They are
+    proved by one invariant (`Proofs/SchedDeps.lean`, `Inv`) preserved by every callback and every event.
+    No well-formedness of events (`EvOK`) is needed; `ReachableOK.reachable` transfers every theorem to
+    the runs made of well-formed events only. -/
 namespace XpmVerif.C04
-open XpmVerif.Sched
+open XpmVerif.Sched XpmVerif.SchedDeps
+
 /-- obligation on the current source: the three scheduler repairs are present. -/
 theorem scheduler_flags : Gen.schedFlags = { readyGuarded := true, resubmitRegisters := true, abortRechecks := true } := by decide
+
+/-- `counter_sound`: in every reachable state, for every job whose coroutine has started
+    (`pc ∉ {none, created}`), the counter `unsat` (`Job.unsatisfied`) equals the number of positions `d` of
+    `deps` whose recorded status is not `ok`. -/
+theorem counter_sound {fl : Flags} (hfl : fl.readyGuarded = true) {totals : List Nat} {s : St}
+    (hr : Reachable fl totals s) (j : Nat) (h1 : (s.jobs j).pc ≠ .none) (h2 : (s.jobs j).pc ≠ .created) :
+    (s.jobs j).unsat = (((s.jobs j).deps.countP (fun d => decide (d.cur ≠ .ok)) : Nat) : Int) := by
+  have hl := (hr.inv hfl).loc j
+  apply hl.counter
+  intro e
+  rcases (hl.unsched e).1 with e' | e'
+  · exact h1 e'
+  · exact h2 e'
+
+/-- `ok_means_done`: in every reachable state, a job dependency recorded as `ok` has its origin in state
+    `done`. -/
+theorem ok_means_done {fl : Flags} (hfl : fl.readyGuarded = true) {totals : List Nat} {s : St}
+    (hr : Reachable fl totals s) (j : Nat) (d : Dep) (hd : d ∈ (s.jobs j).deps) (o : Nat)
+    (ho : d.origin = .job o) (hc : d.cur = .ok) : (s.jobs o).state = .done :=
+  (hr.inv hfl).okdone j d hd o ho hc
+
+/-- `done_stable`: once a job is `done` in a reachable state it is `done` after every further list of
+    events.  This is where `readyGuarded` is needed (see `done_unstable_unguarded`). -/
+theorem done_stable {fl : Flags} (hfl : fl.readyGuarded = true) {totals : List Nat} {s : St}
+    (hr : Reachable fl totals s) (o : Nat) (hdone : (s.jobs o).state = .done) (evs : List Ev) :
+    ((run fl s evs).jobs o).state = .done :=
+  (Inv.run fl hfl evs (hr.inv hfl)).2 o hdone
+
+/-- without the repair `readyGuarded` the model reproduces the defect: job 1 (done marker, depends on
+    job 0) is `done`, and the `check` queued when job 0 finishes turns it `ready` again. -/
+theorem done_unstable_unguarded :
+    let fl : Flags := { readyGuarded := false, resubmitRegisters := true, abortRechecks := true }
+    let s := run fl (St.init []) [.submit 0 [] 0 false, .submit 1 [.job 0] 0 true, .step, .step,
+      .deliver 0, .step, .deliver 1, .step, .deliver 1, .step, .deliver 1, .step]
+    Reachable fl [] s ∧ (s.jobs 1).state = .done ∧ ((s.apply fl .step).jobs 1).state = .ready := by
+  refine ⟨⟨_, rfl⟩, ?_, ?_⟩ <;> decide
+
+/-- `launch_after_deps` (the sentence of the property): whenever an event applied to a reachable state
+    increases the launch count of job `j`, every job dependency of `j` has its origin in state `done` in the
+    state after the event (and, by `done_stable`, in all later states). -/
+theorem launch_after_deps {fl : Flags} (hfl : fl.readyGuarded = true) {totals : List Nat} {s : St}
+    (hr : Reachable fl totals s) (ev : Ev) (j : Nat)
+    (hl : ((s.apply fl ev).jobs j).launches > (s.jobs j).launches)
+    (d : Dep) (hd : d ∈ (s.jobs j).deps) (o : Nat) (ho : d.origin = .job o) :
+    ((s.apply fl ev).jobs o).state = .done :=
+  ((hr.inv hfl).apply fl hfl ev).2.launch j hl d hd o ho
+
+/-- `launch_after_deps`, state just before the launch: a `step` event (one callback) that launches `j`
+    finds `j` at `lockEnter` and every job dependency of `j` already `done` before the callback, and still
+    `done` after it.  (`deliver` and `wait` never change a launch count; `submit` runs callbacks, see
+    `launch_after_deps_in_submit`.) -/
+theorem launch_after_deps_step {fl : Flags} (hfl : fl.readyGuarded = true) {totals : List Nat} {s : St}
+    (hr : Reachable fl totals s) (j : Nat)
+    (hl : ((s.apply fl .step).jobs j).launches > (s.jobs j).launches) :
+    (s.jobs j).pc = .lockEnter ∧
+    ∀ d ∈ (s.jobs j).deps, ∀ o, d.origin = .job o →
+      (s.jobs o).state = .done ∧ ((s.apply fl .step).jobs o).state = .done :=
+  (hr.inv hfl).step_launch fl hfl j hl
+
+/-- `launch_after_deps`, inside a `submit` event (which is `St.steps` from `submitPre`, see
+    `SchedDeps.apply_submit_eq`): each callback it runs that launches `j` finds every job dependency of
+    `j` `done` just before and just after that callback. -/
+theorem launch_after_deps_in_submit {fl : Flags} (hfl : fl.readyGuarded = true) {totals : List Nat} {s : St}
+    (hr : Reachable fl totals s) (ident : Nat) (deps : List Origin) (code : Nat) (marker : Bool) (i j : Nat) :
+    let a := St.steps fl (submitPre s ident deps code marker) i
+    ((a.step fl).jobs j).launches > (a.jobs j).launches →
+    (a.jobs j).pc = .lockEnter ∧
+    ∀ d ∈ (a.jobs j).deps, ∀ o, d.origin = .job o →
+      (a.jobs o).state = .done ∧ ((a.step fl).jobs o).state = .done := by
+  intro a hl
+  exact (Inv.steps fl hfl i ((hr.inv hfl).submitPre ident deps code marker)).1.step_launch fl hfl j hl
+
+/-- `deliver` and `wait` events never launch. -/
+theorem no_launch_by_deliver_wait (fl : Flags) (s : St) (ev : Ev) (hev : ev = .wait ∨ ∃ k, ev = .deliver k) (j : Nat) :
+    ((s.apply fl ev).jobs j).launches = (s.jobs j).launches := by
+  rcases hev with rfl | ⟨k, rfl⟩
+  · rfl
+  · simp only [St.apply]; split <;> rfl
+
+/-- a job waiting for its locks (`pc = lockEnter`, the only place from which a launch happens) has all its
+    job dependencies `done`, in every reachable state. -/
+theorem lockEnter_deps_done {fl : Flags} (hfl : fl.readyGuarded = true) {totals : List Nat} {s : St}
+    (hr : Reachable fl totals s) (j : Nat) (hpc : (s.jobs j).pc = .lockEnter)
+    (d : Dep) (hd : d ∈ (s.jobs j).deps) (o : Nat) (ho : d.origin = .job o) : (s.jobs o).state = .done :=
+  (hr.inv hfl).lockEnter_done hpc d hd o ho
+
+/-! ### the hypotheses are satisfiable: a concrete run of the current flags -/
+
+/-- job 1 depends on job 0 and on a token; after these events job 0 is done and job 1 is at `lockEnter`. -/
+def exEvs : List Ev := [.submit 0 [] 0 false, .submit 1 [.job 0, .tok 0 1] 0 false, .step, .step,
+  .deliver 0, .step, .deliver 0, .step, .deliver 0, .step, .deliver 0, .step, .step, .step, .deliver 0]
+def exS : St := run Gen.schedFlags (St.init [2]) exEvs
+
+example : Reachable Gen.schedFlags [2] exS := ⟨exEvs, rfl⟩
+example : ReachableOK Gen.schedFlags [2] (run Gen.schedFlags (St.init [2]) (exEvs.take 2)) :=
+  .step _ (.step _ .init (by decide)) (by decide)
+/-- the next callback launches job 1 (hypothesis of `launch_after_deps`), its dependency job 0 is `done`. -/
+example : ((exS.apply Gen.schedFlags .step).jobs 1).launches > (exS.jobs 1).launches := by decide
+example : ((exS.apply Gen.schedFlags .step).jobs 0).state = .done :=
+  launch_after_deps (by decide) ⟨exEvs, rfl⟩ .step 1 (by decide) { origin := .job 0, cur := .ok } (by decide) 0 rfl
+/-- hypothesis of `counter_sound` with a non-zero counter: job 1 asleep with one unsatisfied dependency. -/
+example : let s := run Gen.schedFlags (St.init [2]) (exEvs.take 4)
+    (s.jobs 1).pc = .evtWait ∧ (s.jobs 1).unsat = 1 ∧ (s.jobs 1).deps.map (·.cur) = [.wait, .ok] := by decide
+/-- hypothesis of `done_stable`. -/
+example : (exS.jobs 0).state = .done := by decide
+
 end XpmVerif.C04
